@@ -1524,6 +1524,10 @@ func (c *Conn) ApiVersions() ([]ApiVersion, error) {
 	if size, err = readInt32(&c.rbuf, size, &arrSize); err != nil {
 		return nil, err
 	}
+	if arrSize < 0 || int(arrSize) > size/6 {
+		// every entry takes 6 bytes of the response: a negative or larger count is a malformed frame
+		return nil, fmt.Errorf("invalid number of api versions (%d) with %d bytes remaining in the response: %w", arrSize, size, io.ErrUnexpectedEOF)
+	}
 	r := make([]ApiVersion, arrSize)
 	for i := 0; i < int(arrSize); i++ {
 		if size, err = readInt16(&c.rbuf, size, &r[i].ApiKey); err != nil {
